@@ -903,6 +903,17 @@ func (env *Env) evalCall(e *ECall) TV {
 		// addr(x.f): the address of an lvalue as a pointer value
 		p, pt := env.addrOf(e.Args[0])
 		return TV{V: Val{K: VPtr, P: p}, T: types.NewPointer(pt)}
+	case "lastnow":
+		// the value returned by the most recent time.Now() executed by the function under verification
+		// (its own body and inlined callees); arbitrary on a path that has not read the clock
+		tt := ex.resolveType("time.Time")
+		ls := leavesOf(tt)
+		ts := make([]string, len(ls))
+		for i, l := range ls {
+			ts[i] = ex.get(env.st, "GG.lastnow."+l.Path, l.Sort)
+		}
+		v, _ := unflatten(tt, ts)
+		return TV{V: v, T: tt}
 	case "timesub":
 		a := env.eval(e.Args[0])
 		b := env.eval(e.Args[1])
